@@ -243,10 +243,14 @@ async fn park_streams(local: &Connection, remote: Option<&Connection>) -> Vec<Pa
     v
 }
 
+/// Every parked call gets until `BOUND` after the instant the connection ended (one common
+/// deadline, not a bound per call added up).
 async fn collect(parked: Vec<Parked>) -> Vec<(&'static str, Res)> {
     let mut out = vec![];
+    let deadline = std::time::Instant::now() + BOUND;
     for p in parked {
-        let r = match within(BOUND, p.handle).await {
+        let left = deadline.saturating_duration_since(std::time::Instant::now()).max(ms(100));
+        let r = match within(left, p.handle).await {
             Waited::Done(Ok(r)) => r,
             Waited::Done(Err(e)) => {
                 if e.is_panic() {
@@ -407,20 +411,44 @@ async fn pair_case(cause: Cause, observe_client: bool, backlog: Backlog, seed: u
             }
         }
         Cause::IdleTimeout => {
+            // premise: the connection is still up when the path goes dark (on a starved machine
+            // a 600 ms idle period can pass before we get here; the peer then answers late
+            // packets with a stateless reset, which is a different — and correctly named — cause)
+            if let Waited::Done(e) = within(ms(1), me.closed()).await {
+                return rep.inconclusive(format!("{ctx}: connection already ended ({}) before the path was cut", conn_err(&e)));
+            }
             let r = pair.relay.as_ref().unwrap();
             r.to_server.set(Mode::Blackhole);
             r.to_client.set(Mode::Blackhole);
+            // the idle timer is max(configured, 3 x PTO) (RFC 9000 §10.1) and PTO follows the
+            // measured RTT, which a loaded machine inflates: the bound for the calls starts when
+            // the transport itself declares the connection dead, not when the path was cut
+            if let Waited::TimedOut = within(Duration::from_secs(90), me.quic_connection().closed()).await {
+                return rep.inconclusive(format!("{ctx}: transport did not time out within 90 s of a dark path"));
+            }
         }
         _ => unreachable!(),
     }
+    let (b0, t0) = (hb.beats(), std::time::Instant::now());
     let mut results = collect(parked).await;
     results.extend(later_calls(&me, backlog).await);
     if let Some((s, r)) = idle.as_mut() {
         results.extend(later_stream_calls(s, r).await);
     }
-    // a hang is only believed when the heartbeat task kept running during the wait
-    if results.iter().any(|(_, r)| *r == Res::Hung) && hb.beats() < 200 {
-        return rep.inconclusive(format!("{ctx}: runtime not live enough ({} beats) to trust a hang", hb.beats()));
+    // a hang is only believed when the heartbeat task (5 ms period) kept running during the wait:
+    // at least 40% of the beats a free runtime would have produced
+    let (beats, waited) = (hb.beats() - b0, t0.elapsed());
+    if results.iter().any(|(_, r)| *r == Res::Hung) && beats < waited.as_millis() as u64 / 5 * 4 / 10 {
+        return rep.inconclusive(format!("{ctx}: runtime not live enough ({beats} beats in {waited:?}) to trust a hang"));
+    }
+    let relay_stats = pair.relay.as_ref().map(|r| {
+        use std::sync::atomic::Ordering::Relaxed;
+        format!(" relay: to_server fwd={} dropped={}, to_client fwd={} dropped={}", r.to_server.forwarded.load(Relaxed), r.to_server.dropped.load(Relaxed), r.to_client.forwarded.load(Relaxed), r.to_client.dropped.load(Relaxed))
+    });
+    let ctx = format!("{ctx} [beats={beats} waited={waited:?}{}]", relay_stats.unwrap_or_default());
+    if cause == Cause::IdleTimeout && results.iter().any(|(_, r)| matches!(r, Res::Conn(e) if e.contains("has been reset"))) {
+        // nothing crosses a dark path: a reset can only have arrived before it was cut
+        return rep.inconclusive(format!("{ctx}: connection was reset by the peer before the path was cut"));
     }
     judge(rep, cause, role, &results, &ctx);
     if rep.samples.len() < 6 {
@@ -686,6 +714,29 @@ async fn h2_bichannel_round(seed: u64, rep: &mut Report) {
 
 pub fn run(args: &Args) -> Report {
     let mut rep = Report::new();
+    // debugging aid: NETMON_C09_FOCUS="IdleTimeout,client,Uni,20" runs one pair scenario repeatedly
+    if let Ok(f) = std::env::var("NETMON_C09_FOCUS") {
+        let p: Vec<&str> = f.split(',').collect();
+        let cause = match p[0] {
+            "IdleTimeout" => Cause::IdleTimeout,
+            "LocalClose" => Cause::LocalClose,
+            "EndpointClose" => Cause::EndpointClose,
+            _ => Cause::PeerQuicClose,
+        };
+        let backlog = match p.get(2).copied() {
+            Some("Uni") => Backlog::Uni,
+            Some("Bi") => Backlog::Bi,
+            _ => Backlog::None,
+        };
+        let n: u64 = p.get(3).and_then(|x| x.parse().ok()).unwrap_or(5);
+        let rt = crate::runtime(true, 4);
+        rt.block_on(async {
+            for k in 0..n {
+                pair_case(cause, p.get(1) == Some(&"client"), backlog, args.seed + k, &mut rep).await;
+            }
+        });
+        return rep;
+    }
     let reps: u64 = if args.thorough { 12 } else { 1 };
     for multi in [true, false] {
         let rt = crate::runtime(multi, 4);
